@@ -521,18 +521,43 @@ func (p *Parser) parseComponentStmt() ast.Statement {
 	if p.peekTokenIs(token.SLOT) {
 		p.nextToken() // skip ")"
 		stmt.Slots = p.parseSlots()
+
+		if !p.closesComponentSlots() {
+			return nil
+		}
 	} else if p.peekTokenIs(token.HTML) && isWhitespace(p.peekToken.Literal) {
 		p.nextToken() // skip ")"
 
 		if p.peekTokenIs(token.SLOT) {
 			p.nextToken() // skip whitespace
 			stmt.Slots = p.parseSlots()
+
+			if !p.closesComponentSlots() {
+				return nil
+			}
 		}
 	}
 
 	p.components = append(p.components, stmt)
 
 	return stmt
+}
+
+// closesComponentSlots reports whether the slots passed to a
+// component are followed by the "@end" that closes the component
+func (p *Parser) closesComponentSlots() bool {
+	if p.curTokenIs(token.END) {
+		return true
+	}
+
+	p.newError(
+		p.curToken.ErrorLine(),
+		fail.ErrWrongNextToken,
+		token.String(token.END),
+		token.String(p.curToken.Type),
+	)
+
+	return false
 }
 
 func (p *Parser) parseAliasPathShortcut(shortenTo string) string {
